@@ -1,6 +1,7 @@
 package main
 
 import (
+	"fmt"
 	"go/constant"
 	"go/token"
 	"sync"
@@ -66,6 +67,37 @@ type Flat struct {
 	byFn   map[*ssa.Function][]*FCtx
 	cont   map[*FCtx]*FB // continuation segment after the spliced call
 	raw    bool
+
+	pathOnce     sync.Once
+	paths        [][]*FB // feasible entry→exit paths, each segment visited at most twice
+	pathsAll     bool    // the enumeration is complete (else the graph-level fallback is used)
+}
+
+// flatPathLimit bounds the cached enumeration of feasible paths per view.
+const flatPathLimit = 150000
+
+// feasiblePaths enumerates (once) the feasible paths of the view.
+func (fl *Flat) feasiblePaths() ([][]*FB, bool) {
+	fl.pathOnce.Do(func() {
+		fl.pathsAll = enumPathsIn(fl, 2, flatPathLimit, func(p CPath) {
+			fl.paths = append(fl.paths, p.Segs)
+		})
+		if !fl.pathsAll {
+			fl.paths = nil
+		}
+	})
+	return fl.paths, fl.pathsAll
+}
+
+// instrPos locates an instruction on a path: the indices of the segments holding it.
+func instrPositions(path []*FB, in ssa.Instruction, k int) []int {
+	var out []int
+	for i, s := range path {
+		if s.B == in.Block() && s.Lo <= k && k < s.Hi {
+			out = append(out, i)
+		}
+	}
+	return out
 }
 
 var (
@@ -76,7 +108,28 @@ var (
 	flatInModule func(*ssa.Function) bool
 )
 
+// flatOpaque lists helpers that a rule treats as anchors in their own right
+// (analysed separately, referred to by their call): they are never spliced.
+var flatOpaque = map[*ssa.Function]bool{}
+
+// markOpaque registers anchors; views built earlier are discarded.
+func markOpaque(fns ...*ssa.Function) {
+	changed := false
+	for _, f := range fns {
+		if f != nil && !flatOpaque[f] {
+			flatOpaque[f] = true
+			changed = true
+		}
+	}
+	if changed {
+		flatMu.Lock()
+		flatCache = map[*ssa.Function]*Flat{}
+		flatMu.Unlock()
+	}
+}
+
 func resetFlatCache() {
+	flatOpaque = map[*ssa.Function]bool{}
 	flatMu.Lock()
 	flatCache = map[*ssa.Function]*Flat{}
 	rawCache = map[*ssa.Function]*Flat{}
@@ -105,7 +158,7 @@ func spliceTarget(in ssa.Instruction, ctx *FCtx) *ssa.Function {
 	if f == nil || f.Blocks == nil || flatInModule == nil || !flatInModule(f) || !unexportedName(f) {
 		return nil
 	}
-	if f.Synthetic != "" {
+	if f.Synthetic != "" || flatOpaque[f] {
 		return nil
 	}
 	if ctx.Depth >= flatMaxDepth {
@@ -305,6 +358,54 @@ func (fl *Flat) reach(starts []*FB, avoid func(*FB) bool, avoidEdge func(a, b *F
 	return seen
 }
 
+// reachBlocks: the blocks visited after entering block from (the entry when
+// nil) on some feasible path, never entering an avoided block or crossing an
+// avoided edge.
+func (fl *Flat) reachBlocks(from *ssa.BasicBlock, avoidB map[*ssa.BasicBlock]bool, avoidE map[edge]bool) map[*ssa.BasicBlock]bool {
+	out := map[*ssa.BasicBlock]bool{}
+	if len(fl.Blocks) == 0 {
+		return out
+	}
+	paths, ok := fl.feasiblePaths()
+	if !ok {
+		var starts []*FB
+		if from == nil {
+			starts = []*FB{fl.Blocks[0]}
+		} else {
+			for _, s := range fl.segs[from] {
+				if s.Lo == 0 {
+					starts = append(starts, s)
+				}
+			}
+		}
+		r := fl.reach(starts, func(s *FB) bool { return avoidB[s.B] }, func(a, b *FB) bool {
+			return a.Ctx == b.Ctx && avoidE[edge{a.B, b.B}]
+		})
+		for s := range r {
+			out[s.B] = true
+		}
+		return out
+	}
+	for _, p := range paths {
+		for i, s := range p {
+			if !(from == nil && i == 0) && !(from != nil && s.B == from && s.Lo == 0) {
+				continue
+			}
+			for j := i; j < len(p); j++ {
+				t := p[j]
+				if avoidB[t.B] {
+					break
+				}
+				if j > i && p[j-1].Ctx == t.Ctx && avoidE[edge{p[j-1].B, t.B}] {
+					break
+				}
+				out[t.B] = true
+			}
+		}
+	}
+	return out
+}
+
 // MustPrecede: on every path of the view from the root entry to any occurrence
 // of b, some occurrence of a has executed before.
 func (fl *Flat) MustPrecede(a, b ssa.Instruction) bool {
@@ -313,6 +414,23 @@ func (fl *Flat) MustPrecede(a, b ssa.Instruction) bool {
 		return false
 	}
 	ia, ib := instrIndex(a), instrIndex(b)
+	if paths, ok := fl.feasiblePaths(); ok {
+		for _, p := range paths {
+			pa := instrPositions(p, a, ia)
+			for _, j := range instrPositions(p, b, ib) {
+				found := false
+				for _, i := range pa {
+					if i < j || (i == j && ia < ib) {
+						found = true
+					}
+				}
+				if !found {
+					return false
+				}
+			}
+		}
+		return true
+	}
 	inA := map[*FB]bool{}
 	for _, s := range as {
 		inA[s] = true
@@ -352,6 +470,19 @@ func (fl *Flat) CanReach(a, b ssa.Instruction) bool {
 		return false
 	}
 	ia, ib := instrIndex(a), instrIndex(b)
+	if paths, ok := fl.feasiblePaths(); ok {
+		for _, p := range paths {
+			pb := instrPositions(p, b, ib)
+			for _, i := range instrPositions(p, a, ia) {
+				for _, j := range pb {
+					if i < j || (i == j && ia < ib) {
+						return true
+					}
+				}
+			}
+		}
+		return false
+	}
 	inB := map[*FB]bool{}
 	for _, s := range bs {
 		inB[s] = true
@@ -381,8 +512,9 @@ type TakenIf struct {
 
 // A CPath is one entry-to-exit path through the flattened view.
 type CPath struct {
-	Segs []*FB
-	fl   *Flat
+	Segs   []*FB
+	fl     *Flat
+	prefix bool // a path under construction: the active splice of a function is its latest
 }
 
 func (p CPath) Instrs() []ssa.Instruction {
@@ -469,7 +601,7 @@ func (p CPath) ctxOn(fn *ssa.Function) *FCtx {
 	var found *FCtx
 	for _, s := range p.Segs {
 		if s.Ctx.Fn == fn && s.Ctx != found {
-			if found != nil {
+			if found != nil && !p.prefix {
 				return nil
 			}
 			found = s.Ctx
@@ -716,6 +848,12 @@ func enumPathsIn(fl *Flat, maxVisits, limit int, visit func(CPath)) bool {
 				del(isNil, v)
 			}
 		}
+		if b.Ctx.Call != nil && b.Lo == 0 && b.B == b.Ctx.Fn.Blocks[0] {
+			for _, prm := range b.Ctx.Fn.Params {
+				del(truth, prm)
+				del(isNil, prm)
+			}
+		}
 		visits[b]++
 		cur = append(cur, b)
 		switch {
@@ -728,7 +866,7 @@ func enumPathsIn(fl *Flat, maxVisits, limit int, visit func(CPath)) bool {
 			}
 		case len(b.Succs) == 2:
 			if ifi, isIf := b.Last().(*ssa.If); isIf {
-				p := CPath{Segs: cur, fl: fl}
+				p := CPath{Segs: cur, fl: fl, prefix: true}
 				val, known, m, key, flip := decide(p, ifi.Cond)
 				for i, s := range b.Succs {
 					arm := i == 0
@@ -815,3 +953,191 @@ func flatAP(root *ssa.Function, v ssa.Value) AP {
 }
 
 var _ = token.NoPos
+
+// Val resolves a parameter of a helper spliced exactly once in the view to the
+// argument at its call (transitively); other values are returned unchanged.
+func (fl *Flat) Val(v ssa.Value) ssa.Value {
+	for i := 0; i < 16; i++ {
+		prm, ok := v.(*ssa.Parameter)
+		if !ok || prm.Parent() == fl.Root {
+			return v
+		}
+		ctxs := fl.byFn[prm.Parent()]
+		if len(ctxs) != 1 || ctxs[0].Call == nil {
+			return v
+		}
+		var arg ssa.Value
+		for j, q := range prm.Parent().Params {
+			if q == prm && j < len(ctxs[0].Call.Call.Args) {
+				arg = ctxs[0].Call.Call.Args[j]
+			}
+		}
+		if arg == nil {
+			return v
+		}
+		v = arg
+	}
+	return v
+}
+
+// viewVal is Val in the view of root.
+func viewVal(root *ssa.Function, v ssa.Value) ssa.Value { return flatOf(root).Val(v) }
+
+// privateTo reports whether fn's body is part of root's view and fn can only
+// run as part of it: every static call of fn in the module lies in a function
+// of the view, and fn is never used as a value. Such a helper is, for
+// who-may-do-X rules, part of root.
+func (c *Ctx) privateTo(root, fn *ssa.Function) bool {
+	if fn == root {
+		return true
+	}
+	fl := flatOf(root)
+	in := map[*ssa.Function]bool{}
+	for _, f := range fl.Funcs() {
+		in[f] = true
+	}
+	if !in[fn] {
+		return false
+	}
+	ok := true
+	for _, g := range c.ModFn {
+		if g.Blocks == nil {
+			continue
+		}
+		allInstrs(g, false, func(i ssa.Instruction) {
+			if !ok {
+				return
+			}
+			var ops []*ssa.Value
+			for _, op := range i.Operands(ops) {
+				if op == nil || *op != ssa.Value(fn) {
+					continue
+				}
+				// fn used as an operand: only as the callee of a static call inside the view
+				cc := asCall(i)
+				if cc == nil || cc.Value != ssa.Value(fn) || !in[g] {
+					ok = false
+				}
+			}
+		})
+	}
+	return ok
+}
+
+// Origins expands a value, without regard to paths, into the values it can
+// stem from in the view: phi edges, the stores into a private cell, the
+// argument bound to a spliced helper's parameter, and the values a spliced
+// call can return. Nil constants are dropped when other origins exist (an
+// error exit's nil result is not an origin of the success value).
+func (fl *Flat) Origins(v ssa.Value) []ssa.Value {
+	seen := map[ssa.Value]bool{}
+	var out []ssa.Value
+	var walk func(x ssa.Value, depth int)
+	walk = func(x ssa.Value, depth int) {
+		if seen[x] || depth > 24 {
+			return
+		}
+		seen[x] = true
+		switch y := x.(type) {
+		case *ssa.Phi:
+			for _, e := range y.Edges {
+				walk(e, depth+1)
+			}
+			return
+		case *ssa.Parameter:
+			if y.Parent() != fl.Root {
+				n := 0
+				for _, ctx := range fl.byFn[y.Parent()] {
+					if ctx.Call == nil {
+						continue
+					}
+					for j, q := range y.Parent().Params {
+						if q == y && j < len(ctx.Call.Call.Args) {
+							walk(ctx.Call.Call.Args[j], depth+1)
+							n++
+						}
+					}
+				}
+				if n > 0 {
+					return
+				}
+			}
+		case *ssa.Call:
+			if ctxs := fl.byCall[y]; len(ctxs) > 0 {
+				for _, ret := range returnsOf(ctxs[0].Fn) {
+					if len(ret.Results) == 1 {
+						walk(ret.Results[0], depth+1)
+					}
+				}
+				return
+			}
+		case *ssa.Extract:
+			if call, ok := y.Tuple.(*ssa.Call); ok {
+				if ctxs := fl.byCall[call]; len(ctxs) > 0 {
+					for _, ret := range returnsOf(ctxs[0].Fn) {
+						if y.Index < len(ret.Results) {
+							walk(ret.Results[y.Index], depth+1)
+						}
+					}
+					return
+				}
+			}
+		}
+		if al := privateCell(x); al != nil {
+			n := 0
+			for _, ref := range *al.Referrers() {
+				if st, ok := ref.(*ssa.Store); ok {
+					walk(st.Val, depth+1)
+					n++
+				}
+			}
+			if n > 0 {
+				return
+			}
+		}
+		out = append(out, x)
+	}
+	walk(v, 0)
+	var nonNil []ssa.Value
+	for _, o := range out {
+		if !isNilConst(o) {
+			nonNil = append(nonNil, o)
+		}
+	}
+	if len(nonNil) > 0 {
+		return nonNil
+	}
+	return out
+}
+
+// APs are the access paths v can denote in the view: apOf continued through
+// the origins of its root.
+func (fl *Flat) APs(v ssa.Value) []AP {
+	var out []AP
+	seen := map[string]bool{}
+	var walk func(ap AP, depth int)
+	walk = func(ap AP, depth int) {
+		if ap.Root == nil || depth > 8 {
+			out = append(out, ap)
+			return
+		}
+		os := fl.Origins(ap.Root)
+		if len(os) == 1 && os[0] == ap.Root {
+			k := fmt.Sprintf("%p|%s", ap.Root, ap.SelString())
+			if !seen[k] {
+				seen[k] = true
+				out = append(out, ap)
+			}
+			return
+		}
+		for _, o := range os {
+			inner := apOf(o)
+			walk(AP{Root: inner.Root, Sel: append(append([]string{}, inner.Sel...), ap.Sel...)}, depth+1)
+		}
+	}
+	walk(apOf(v), 0)
+	return out
+}
+
+func viewOrigins(root *ssa.Function, v ssa.Value) []ssa.Value { return flatOf(root).Origins(v) }
+func viewAPs(root *ssa.Function, v ssa.Value) []AP           { return flatOf(root).APs(v) }
